@@ -244,3 +244,70 @@ for fpos, members in (("first", {"fock": "t", "polarization": "o"}), ("second", 
                 "ignore_calls": ("self.trace_out", "self.fock", "self.polarization"), "havoc_calls": (), "checkpoint_calls": (),
                 "expect_state": _resized("psi" if level == "Vector" else "rho", how, fb, level == "Matrix", ob),
                 "expect_layout": ("Env", "one") if level == "Vector" else ("Env", "Env"), "expect_members": "Env", "min_sites": 3, "properties": ["C10"]})
+
+
+# ---- Envelope.reorder (the non-trivial branch: the stored order is the other one): same state, axes exchanged, indices exchanged
+def _ctx_env_swap():
+    return Ctx({"Env": ("o", "t"), "EnvS": ("o", "t"), "Tl": ("t",), "Ol": ("o",)}, order={"Env": ("Tl", "Ol"), "EnvS": ("Ol", "Tl")}, perms={"Env": "EnvS", "EnvS": "Env"})
+
+
+for fpos, members in (("first", {"fock": "t", "polarization": "o"}), ("second", {"fock": "o", "polarization": "t"})):
+    for level in ("Vector", "Matrix"):
+        same = (con([("psi", False, (gv(t="i", o="j"),))], [gv(t="i", o="j")]) if level == "Vector" else
+                con([("rho", False, (gv(t="i", o="j"), gv(t="k", o="l")))], [gv(t="i", o="j"), gv(t="k", o="l")]))
+        SPECS.append({
+            "function": f"{ENVF}::Envelope.reorder", "case": f"swap:fock-{fpos}:{level}", "level": level, "ctx": _ctx_env_swap,
+            "env": lambda ctx: {}, "fields": _fields_env, "env_members": members, "env_list": "Env",
+            "decide": {"self.state is None": False, "current_order[0] is states_list[0] and current_order[1] is states_list[1]": False,
+                       "len(states_list) == 2": False, "len(states_list) > 2": False, "len(states_list) == 1": False},
+            "ignore_calls": ("self.fock", "self.polarization"), "havoc_calls": (), "checkpoint_calls": (),
+            "expect_state": same, "expect_layout": ("EnvS", "one") if level == "Vector" else ("EnvS", "EnvS"), "expect_members": "EnvS", "min_sites": 4,
+            "properties": ["C02", "C13"]})
+
+
+# ---- Envelope.measure_POVM on a combined stand-alone envelope (non-destructive paths): probabilities and post state
+_ENVP_DEC = {"self.state is None": False, "C.contractions": True, "destructive": False, "self.composite_envelope_id is not None": False,
+             "len(states) == 2 and self.state is None": False, "len(states) == 1 and self.state is None": False, "self.measured": False,
+             "len(states) > 2": False, "len(states) == 0": False}
+for tname, members in (("fock", {"fock": "t", "polarization": "o"}), ("polarization", {"fock": "o", "polarization": "t"})):
+    for level in ("Vector", "Matrix"):
+        SPECS.append({
+            "function": f"{ENVF}::Envelope.measure_POVM", "case": f"combined:one-target={tname}:{level}", "level": level, "ctx": _ctx_env,
+            "env": lambda ctx: {"states": AList("Tl"), "operators": AOps(base_tensor("K", ["Tl", "Tl"], ctx), "K")}, "fields": _fields_env,
+            "env_members": members, "env_list": "Env", "decide": dict(_ENVP_DEC, **{"len(states) == 2": False, "len(states) == 1": True}),
+            "ignore_calls": ("self.reorder", "self.fock", "self.polarization"), "havoc_calls": (), "checkpoint_calls": (),
+            "expect_state": _div(con([("Ksel", False, (gv(t="a"), gv(t="b"))), ("rho", False, (gv(t="b", o="r"), gv(t="d", o="s"))), ("Ksel", True, (gv(t="c"), gv(t="d")))],
+                                     [gv(t="a", o="r"), gv(t="c", o="s")]), "trace"),
+            "expect_layout": ("Env", "Env"), "expect_members": "Env",
+            "expect_probs": ("re", ("trace", con([("K", False, (gv(t="a"), gv(t="b"))), ("rho", False, (gv(t="b", o="r"), gv(t="d", o="r"))), ("K", True, (gv(t="c"), gv(t="d")))],
+                                                   [gv(t="a"), gv(t="c")]))),
+            "probs_var": "probabilities", "min_sites": 5, "properties": ["C09"]})
+        SPECS.append({
+            "function": f"{ENVF}::Envelope.measure_POVM", "case": f"combined:both:first={tname}:{level}", "level": level, "ctx": _ctx_env,
+            "env": lambda ctx: {"states": AList("Env"), "operators": AOps(base_tensor("K", ["Env", "Env"], ctx), "K")}, "fields": _fields_env,
+            "env_members": members, "env_list": "Env", "decide": dict(_ENVP_DEC, **{"len(states) == 2": True, "len(states) == 1": False}),
+            "ignore_calls": ("self.reorder", "self.fock", "self.polarization"), "havoc_calls": (), "checkpoint_calls": (),
+            "expect_state": _div(con([("Ksel", False, (gv(t="a", o="e"), gv(t="b", o="f"))), ("rho", False, (gv(t="b", o="f"), gv(t="d", o="h"))),
+                                      ("Ksel", True, (gv(t="c", o="g"), gv(t="d", o="h")))], [gv(t="a", o="e"), gv(t="c", o="g")]), "trace"),
+            "expect_layout": ("Env", "Env"), "expect_members": "Env",
+            "expect_probs": ("re", ("trace", con([("K", False, (gv(t="a", o="e"), gv(t="b", o="f"))), ("rho", False, (gv(t="b", o="f"), gv(t="d", o="h"))),
+                                                   ("K", True, (gv(t="c", o="g"), gv(t="d", o="h")))], [gv(t="a", o="e"), gv(t="c", o="g")]))),
+            "probs_var": "probabilities", "min_sites": 1, "properties": ["C09"]})
+
+
+# ---- Fock.measure on an own state (C04): Born-rule distribution, support, and the label left behind is the drawn outcome
+for level in ("Vector", "Matrix"):
+    if level == "Vector":
+        p = con([("|psi|^2", False, (gv(S="a"),))], [gv(S="a")])       # stored vectors are normalised (representation invariant, C07)
+    else:
+        d = con([("rho", False, (gv(S="a"), gv(S="a")))], [gv(S="a")])
+        p = ("div", d, ("sum", d))
+    SPECS.append({
+        "function": "photon_weave/state/fock.py::Fock.measure", "case": f"own:{level}", "level": level, "ctx": _ctx_me,
+        "env": lambda ctx: {"self": __import__("vf.pyvc.tensorexec", fromlist=["AMember"]).AMember("S")}, "fields": _fields_me,
+        "decide": {"self.measured": False, "isinstance(self.index, int)": False, "isinstance(self.index, tuple)": False,
+                   "isinstance(self.index, tuple) or isinstance(self.index, list)": False, "self.index is not None": False,
+                   "isinstance(self.index, int) and (not separate_measurement)": False, "isinstance(self.index, int) and separate_measurement": False,
+                   "destructive": False, "self.envelope is not None and (not separate_measurement)": False},
+        "ignore_calls": ("self._set_measured", "self.envelope"), "havoc_calls": (), "checkpoint_calls": (),
+        "expect_label_draw": {"p": p, "a": ("range", "Me")}, "min_sites": 1, "properties": ["C04"]})
